@@ -1,6 +1,9 @@
 import PV.Model.Traverse
 import PV.Model.Eval
 import PV.Proofs.Subterm
+import PV.Proofs.SubstKeys
+import PV.Proofs.SubstCached
+import PV.Proofs.SyntaxBEq
 /-
   C08 — substitution (`SubstitutionMapper` over `IdentityMapper`, model `substM`).
 -/
@@ -461,5 +464,574 @@ example :
     den [] (substM σ e).1 = .ok (.int 0) ∧
     den (envAfter [] σ) e = .error (.unknownVar "z") :=
   ⟨rfl, rfl⟩
+
+
+/-! ## All key kinds: names, `Variable` objects, subscripts, look-ups, keywords -/
+
+theorem noZeroCse_iff (σ : SubstMap) (e : Expr) : NoZeroCse σ e ↔ c08NoZeroCse σ e := Iff.rfl
+
+/-- **Substitution lemma for every key kind** (names, `Variable` objects, `Subscript` and `Lookup`
+nodes; any replacements, evaluable or not).  Evaluating the substituted tree is evaluating the
+original with every INTERCEPTED node — a variable, subscript or look-up for which
+`make_subst_func` finds an entry, by `==` on the node first and then (variables only) by name —
+overridden by the value of its replacement in the original environment.  The override is
+syntactic: the key `a[i]` overrides the nodes `==`-equal to `a[i]` and no other. -/
+theorem eval_subst_keys (σ : SubstMap) (env : Env) (e : Expr) (h : NoZeroCse σ e) :
+    den env (substM σ e).1 = denOv σ env e := by
+  rw [(substM_spec σ e).1]; exact den_substE_ov σ env e h
+
+/-- the keyword form `substitute(e, σ, **kw)` -/
+theorem eval_subst_kw (σ : SubstMap) (kw : List (String × Expr)) (env : Env) (e : Expr)
+    (h : NoZeroCse (σ.c08WithKw kw) e) (v : Expr) (fl : Option Bool)
+    (hr : c08Substitute σ kw false e = some (v, fl)) :
+    den env v = denOv (σ.c08WithKw kw) env e := by
+  simp only [c08Substitute, Bool.false_eq_true, if_false, Option.some.injEq, Prod.mk.injEq] at hr
+  rw [← hr.1]; exact eval_subst_keys _ env e h
+
+/-- non-vacuity of `eval_subst_keys`: the key `a[i]` (computed index) overrides exactly the nodes
+`==` to it; `a[j]` is evaluated as before although `j = i` in the environment -/
+example :
+    let σ : SubstMap := { byExpr := [(.subscript (.var "a") (.var "i"), .var "x")] }
+    let env : Env := [("a", .tuple [.int 1, .int 2]), ("i", .int 0), ("j", .int 0), ("x", .int 7)]
+    let e := Expr.nary .sum [.subscript (.var "a") (.var "i"), .subscript (.var "a") (.var "j")]
+    den env (substM σ e).1 = denOv σ env e ∧ denOv σ env e = .ok (.int 8) ∧
+    den env e = .ok (.int 2) := by
+  intro σ env e
+  exact ⟨eval_subst_keys σ env e (noZeroCse_of_check (by decide)), by rfl, by rfl⟩
+
+/-- non-vacuity of `eval_subst_kw`: `substitute(x + y, {"x": 1}, x=y, y=x)` -/
+example :
+    let σ : SubstMap := { byName := [("x", .const (.int 1))] }
+    let kw := [("x", Expr.var "y"), ("y", Expr.var "x")]
+    let env : Env := [("x", .int 2), ("y", .int 10)]
+    let e := Expr.bin .pow (.var "x") (.var "y")
+    c08Substitute σ kw false e = some (.bin .pow (.var "y") (.var "x"), some true) ∧
+    den env (.bin .pow (.var "y") (.var "x")) = denOv (σ.c08WithKw kw) env e ∧
+    denOv (σ.c08WithKw kw) env e = .ok (.int 100) := by
+  intro σ kw env e
+  exact ⟨by rfl, eval_subst_kw σ kw env e (noZeroCse_of_check (by decide)) _ _ (by rfl), by rfl⟩
+
+/-! ### which entry wins -/
+
+/-- an entry keyed by the `Variable` OBJECT wins over an entry keyed by its name -/
+theorem apply_var_expr_wins (σ : SubstMap) (x : String) (r : Expr)
+    (h : σ.findExpr (.var x) = some r) : σ.apply (.var x) = some r := by
+  simp [SubstMap.apply, h]
+
+/-- a keyword wins over an equal string key of the mapping … -/
+theorem kw_wins_over_name (σ : SubstMap) (kw : List (String × Expr)) (x : String) (r : Expr)
+    (h : (kw.find? (fun p => p.1 == x)) = some (x, r)) :
+    (σ.c08WithKw kw).findName x = some r := by
+  simp [SubstMap.findName, SubstMap.c08WithKw, List.find?_append, h]
+
+/-- … but not over a `Variable`-object key of the same name -/
+theorem kw_loses_to_expr (σ : SubstMap) (kw : List (String × Expr)) (x : String) (r : Expr)
+    (h : σ.findExpr (.var x) = some r) : (σ.c08WithKw kw).apply (.var x) = some r := by
+  have : (σ.c08WithKw kw).findExpr (.var x) = some r := by
+    simpa [SubstMap.findExpr, SubstMap.c08WithKw] using h
+  simp [SubstMap.apply, this]
+
+/-- names never reach subscripts or look-ups: only an expression key `==`-equal to the whole node
+intercepts it -/
+theorem apply_subscript_eq (σ : SubstMap) (a i : Expr) :
+    σ.apply (.subscript a i) = σ.findExpr (.subscript a i) := by
+  simp only [SubstMap.apply]; cases σ.findExpr (.subscript a i) <;> rfl
+
+theorem apply_lookup_eq (σ : SubstMap) (a : Expr) (n : String) :
+    σ.apply (.lookup a n) = σ.findExpr (.lookup a n) := by
+  simp only [SubstMap.apply]; cases σ.findExpr (.lookup a n) <;> rfl
+
+/-- Top-down interception: a subscript key wins over a key for its aggregate (`{a[i] ↦ r, a ↦ b}`
+sends `a[i]` to `r`, not to `b[i]`), and the node rebuilt from substituted children is not looked
+up again (`a[j]` goes to `b[j]` even when `b[j]` is a key). -/
+example :
+    let σ : SubstMap := { byExpr := [(.subscript (.var "a") (.var "i"), .const (.int 5)),
+                                     (.subscript (.var "b") (.var "j"), .const (.int 9))],
+                          byName := [("a", .var "b")] }
+    substM σ (.subscript (.var "a") (.var "i")) = (.const (.int 5), true) ∧
+    substM σ (.subscript (.var "a") (.var "j")) = (.subscript (.var "b") (.var "j"), true) := by
+  constructor <;> rfl
+
+/-- the three ways of naming `x` at once: object key 10, string key 20, keyword 30 -/
+example :
+    let σ : SubstMap := { byExpr := [(.var "x", .const (.int 10))],
+                          byName := [("x", .const (.int 20))] }
+    c08Substitute σ [("x", .const (.int 30))] false (.var "x") = some (.const (.int 10), some true) ∧
+    c08Substitute { byName := [("x", .const (.int 20))] } [("x", .const (.int 30))] false (.var "x")
+      = some (.const (.int 30), some true) := by
+  constructor <;> rfl
+
+/-! ### keys that are names or `Variable` objects: a genuine environment -/
+
+/-- the variable bindings of `σ` in the order `make_subst_func` tries them: `Variable`-object keys,
+then string keys -/
+def varBindings (σ : SubstMap) : List (String × Expr) :=
+  σ.byExpr.filterMap (fun p => match p.1 with | .var y => some (y, p.2) | _ => none) ++ σ.byName
+
+/-- all expression keys are `Variable` objects -/
+def VarKeysOnly (σ : SubstMap) : Prop := ∀ p ∈ σ.byExpr, ∃ y, p.1 = .var y
+
+def findBinding (l : List (String × Expr)) (x : String) : Option Expr :=
+  match l.find? (fun p => p.1 == x) with
+  | some p => some p.2
+  | none => none
+
+theorem findExpr_var_eq (x : String) : ∀ (l : List (Expr × Expr)),
+    SubstMap.findExpr { byExpr := l } (.var x) =
+    findBinding (l.filterMap (fun p => match p.1 with | .var y => some (y, p.2) | _ => none)) x
+  | [] => rfl
+  | (k, r) :: l => by
+    have ih := findExpr_var_eq x l
+    simp only [SubstMap.findExpr] at ih ⊢
+    cases k <;> simp only [List.find?_cons, Expr.pyEq, List.filterMap_cons, findBinding] at ih ⊢
+    case var y =>
+      cases hyx : (y == x) <;> simp only <;> first | rfl | exact ih
+    all_goals exact ih
+
+theorem findBinding_append (l₁ l₂ : List (String × Expr)) (x : String) :
+    findBinding (l₁ ++ l₂) x = match findBinding l₁ x with
+      | some r => some r
+      | none => findBinding l₂ x := by
+  simp only [findBinding, List.find?_append]
+  cases l₁.find? (fun p => p.1 == x) <;> simp
+
+theorem apply_var_eq_findBinding (σ : SubstMap) (x : String) :
+    σ.apply (.var x) = findBinding (varBindings σ) x := by
+  have h1 : σ.findExpr (.var x) = _ := findExpr_var_eq x σ.byExpr
+  have h2 : σ.findName x = findBinding σ.byName x := rfl
+  simp only [SubstMap.apply, varBindings, findBinding_append, h1, h2]
+  cases findBinding (σ.byExpr.filterMap _) x <;> rfl
+
+theorem pyEq_var_left {y : String} {e : Expr} (h : (Expr.var y).pyEq e = true) : e = .var y := by
+  cases e <;> simp_all [Expr.pyEq]
+
+theorem intercept_none_of_varKeys {σ : SubstMap} (hσ : VarKeysOnly σ) (e : Expr)
+    (hv : ∀ x, e ≠ .var x) : c08Intercept σ e = none := by
+  have hf : σ.findExpr e = none := by
+    simp only [SubstMap.findExpr]
+    cases hq : σ.byExpr.find? (fun p => p.1.pyEq e) with
+    | none => rfl
+    | some p =>
+      obtain ⟨y, hy⟩ := hσ p (List.mem_of_find?_eq_some hq)
+      have := List.find?_some hq
+      simp only [hy] at this
+      exact absurd (pyEq_var_left this) (hv y)
+  cases e <;> simp_all [c08Intercept, SubstMap.apply]
+
+/-- every replacement a variable can receive evaluates (in the original environment) -/
+def SubstOKV (env : Env) (σ : SubstMap) : Prop :=
+  ∀ x r, σ.apply (.var x) = some r → ∃ v, den env r = .ok v
+
+/-- the environment after substitution, for name and `Variable`-object keys -/
+def envAfterV (env : Env) (σ : SubstMap) : Env := envAfterL env (varBindings σ)
+
+theorem denOv_var_envAfterV {env : Env} {σ : SubstMap} (hok : SubstOKV env σ) (x : String) :
+    denOv σ env (.var x) = den (envAfterV env σ) (.var x) := by
+  have ha := apply_var_eq_findBinding σ x
+  simp only [denOv, den, envAfterV]
+  cases hq : (varBindings σ).find? (fun p => p.1 == x) with
+  | none =>
+    simp only [findBinding, hq] at ha
+    simp only [ha, envAfterL_get_none env x _ hq]
+    cases env.get x <;> rfl
+  | some q =>
+    simp only [findBinding, hq] at ha
+    obtain ⟨v, hv⟩ := hok x q.2 ha
+    simp only [ha, envAfterL_get_some env x q v _ hq hv, hv]
+    rfl
+
+theorem semOK_of_varKeys {env : Env} {σ : SubstMap} (hσ : VarKeysOnly σ) (hok : SubstOKV env σ)
+    (e : Expr) : SemOK σ env (envAfterV env σ) e := by
+  induction e using Expr.induct with | _ e ih => ?_
+  by_cases hv : ∃ x, e = .var x
+  · obtain ⟨x, rfl⟩ := hv
+    exact .atom (denOv_var_envAfterV hok x)
+  · have hv' : ∀ x, e ≠ .var x := fun x hx => hv ⟨x, hx⟩
+    exact .node hv' (intercept_none_of_varKeys hσ e hv') ih
+
+/-- **Substitution lemma, names and `Variable` objects.**  When every key is a name or a `Variable`
+object (an object key winning over the name), substitution IS an environment update: the
+substituted tree means what the original means where each replaced name is bound to the value of
+its replacement.  (`eval_subst` is the case without object keys.) -/
+theorem eval_subst_vars {env : Env} {σ : SubstMap} (hσ : VarKeysOnly σ) (hok : SubstOKV env σ)
+    (e : Expr) (h : NoZeroCse σ e) :
+    den env (substM σ e).1 = den (envAfterV env σ) e := by
+  rw [eval_subst_keys σ env e h]
+  exact denOv_eq_den_of_semOK (semOK_of_varKeys hσ hok e)
+
+/-- object key `x ↦ y + 1` beats the string key `"x" ↦ 100`; `y ↦ x` is simultaneous -/
+example :
+    let σ : SubstMap := { byExpr := [(.var "x", .nary .sum [.var "y", .const (.int 1)])],
+                          byName := [("x", .const (.int 100)), ("y", .var "x")] }
+    let env : Env := [("x", .int 2), ("y", .int 10)]
+    let e := Expr.bin .pow (.var "x") (.var "y")
+    den env (substM σ e).1 = den (envAfterV env σ) e ∧
+    envAfterV env σ = [("x", .int 11), ("x", .int 100), ("y", .int 2), ("x", .int 2), ("y", .int 10)] ∧
+    den env (substM σ e).1 = .ok (.int 121) := by
+  intro σ env e
+  refine ⟨eval_subst_vars ?_ ?_ e (noZeroCse_of_check (by decide)), by rfl, by rfl⟩
+  · intro p hp
+    simp only [σ, List.mem_cons, List.not_mem_nil, or_false] at hp
+    subst hp; exact ⟨"x", rfl⟩
+  · intro x r hr
+    rw [apply_var_eq_findBinding] at hr
+    simp only [findBinding, varBindings, σ, List.filterMap_cons, List.filterMap_nil,
+      List.cons_append, List.nil_append, List.find?_cons] at hr
+    by_cases h1 : x = "x"
+    · subst h1; simp at hr; subst hr; exact ⟨.int 11, rfl⟩
+    · by_cases h2 : x = "y"
+      · subst h2; simp at hr; subst hr; exact ⟨.int 2, rfl⟩
+      · have e1 : ("x" == x) = false := by simpa using fun h => h1 h.symm
+        have e2 : ("y" == x) = false := by simpa using fun h => h2 h.symm
+        simp [e1, e2] at hr
+
+
+/-! ### subscript and look-up keys: when the syntactic override is an update of the aggregate -/
+
+/-- key shapes covered by `eval_subst_aggregates`: variables, elements `a[k]` of the tuples named
+in `A` at a literal index `k ≥ 0`, attributes `r.n` of the records named in `Rc` -/
+inductive KeyShape (A Rc : List String) : Expr → Prop
+  | var (y : String) : KeyShape A Rc (.var y)
+  | elem (a : String) (k : Nat) : a ∈ A → KeyShape A Rc (.subscript (.var a) (.const (.int k)))
+  | field (r n : String) : r ∈ Rc → KeyShape A Rc (.lookup (.var r) n)
+
+/-- the aggregates named in `A` / `Rc` occur in `e` only under a selection `a[k]` (literal
+`k ≥ 0`) resp. `r.n` -/
+inductive AggSafe (A Rc : List String) : Expr → Prop
+  | elem {a : String} (k : Nat) : a ∈ A → AggSafe A Rc (.subscript (.var a) (.const (.int k)))
+  | field {r : String} (n : String) : r ∈ Rc → AggSafe A Rc (.lookup (.var r) n)
+  | var {x : String} : x ∉ A → x ∉ Rc → AggSafe A Rc (.var x)
+  | node {e : Expr} : (∀ x, e ≠ .var x) → (∀ c ∈ e.children, AggSafe A Rc c) → AggSafe A Rc e
+
+/-- `env'` is `env` updated by the evaluated replacements: other names as in `envAfterV`; a tuple
+`a ∈ A` pointwise (`a[k]` holds the value of the replacement of the key `a[k]`, every other element
+is kept); a record `r ∈ Rc` attribute-wise. -/
+structure AggEnv (σ : SubstMap) (env env' : Env) (A Rc : List String) : Prop where
+  other : ∀ x, x ∉ A → x ∉ Rc → env'.get x = (envAfterV env σ).get x
+  notKey : ∀ a, a ∈ A ∨ a ∈ Rc → σ.apply (.var a) = none
+  tup : ∀ a ∈ A, ∃ vs vs', env.get a = some (.tuple vs) ∧ env'.get a = some (.tuple vs') ∧
+    ∀ k : Nat, match σ.apply (.subscript (.var a) (.const (.int k))) with
+      | some r => ∃ v, den env r = .ok v ∧ vs'[k]? = some v
+      | none => vs'[k]? = vs[k]?
+  recd : ∀ r ∈ Rc, ∃ ns vals ns' vals', env.get r = some (.record ns vals) ∧
+    env'.get r = some (.record ns' vals') ∧
+    ∀ n : String, match σ.apply (.lookup (.var r) n) with
+      | some q => ∃ v, den env q = .ok v ∧ assocLookup n ns' vals' = some v
+      | none => assocLookup n ns' vals' = assocLookup n ns vals
+
+theorem aggSafe_var_not_agg {A Rc : List String} {a : String} (h : AggSafe A Rc (.var a)) :
+    a ∉ A ∧ a ∉ Rc := by
+  cases h with
+  | var h1 h2 => exact ⟨h1, h2⟩
+  | node hv _ => exact absurd rfl (hv a)
+
+theorem index_tuple_nat (vs : List Value) (k : Nat) :
+    Value.index (.tuple vs) (.int k) = match vs[k]? with
+      | some v => .ok v
+      | none => .error .indexError := by
+  have h1 : ¬ ((k : Int) < 0) := by omega
+  simp only [Value.index, Value.isInexact, Bool.false_eq_true, if_false, Value.num?, h1,
+    Int.toNat_natCast]
+  cases vs[k]? <;> rfl
+
+theorem intercept_none_of_shapes {σ : SubstMap} {A Rc : List String}
+    (hk : ∀ p ∈ σ.byExpr, KeyShape A Rc p.1) {e : Expr} (hv : ∀ x, e ≠ .var x)
+    (hc : ∀ c ∈ e.children, AggSafe A Rc c) : c08Intercept σ e = none := by
+  have hf : σ.findExpr e = none := by
+    simp only [SubstMap.findExpr]
+    cases hq : σ.byExpr.find? (fun p => p.1.pyEq e) with
+    | none => rfl
+    | some p =>
+      exfalso
+      have hp := List.find?_some hq
+      have hs := hk p (List.mem_of_find?_eq_some hq)
+      generalize p.1 = key at hs hp
+      cases hs with
+      | var y => exact hv y (pyEq_var_left hp)
+      | elem a k ha =>
+        cases e <;> simp only [Expr.pyEq, Bool.and_eq_true, Bool.false_eq_true] at hp
+        rename_i b i
+        have hb := pyEq_var_left hp.1
+        subst hb
+        exact (aggSafe_var_not_agg (hc _ (by simp [Expr.children]))).1 ha
+      | field r n hr =>
+        cases e <;> simp only [Expr.pyEq, Bool.and_eq_true, Bool.false_eq_true] at hp
+        rename_i b m
+        have hb := pyEq_var_left hp.1
+        subst hb
+        exact (aggSafe_var_not_agg (hc _ (by simp [Expr.children]))).2 hr
+  cases e <;> simp_all [c08Intercept, SubstMap.apply]
+
+theorem semOK_of_aggSafe {σ : SubstMap} {env env' : Env} {A Rc : List String}
+    (hk : ∀ p ∈ σ.byExpr, KeyShape A Rc p.1) (hok : SubstOKV env σ)
+    (hE : AggEnv σ env env' A Rc) {e : Expr} (h : AggSafe A Rc e) : SemOK σ env env' e := by
+  induction h with
+  | @elem a k ha =>
+    refine .atom ?_
+    obtain ⟨vs, vs', h1, h2, h3⟩ := hE.tup a ha
+    have h3k := h3 k
+    have hna := hE.notKey a (Or.inl ha)
+    simp only [denOv, den, h2, Const.den]
+    cases hap : σ.apply (.subscript (.var a) (.const (.int k))) with
+    | some r =>
+      simp only [hap] at h3k
+      obtain ⟨v, hv, hvk⟩ := h3k
+      simp only [hv, bind, Except.bind, pure, Except.pure, index_tuple_nat, hvk]
+    | none =>
+      simp only [hap] at h3k
+      simp only [hna, h1, bind, Except.bind, pure, Except.pure, index_tuple_nat, h3k]
+  | @field r n hr =>
+    refine .atom ?_
+    obtain ⟨ns, vals, ns', vals', h1, h2, h3⟩ := hE.recd r hr
+    have h3n := h3 n
+    have hnr := hE.notKey r (Or.inr hr)
+    simp only [denOv, den, h2]
+    cases hap : σ.apply (.lookup (.var r) n) with
+    | some q =>
+      simp only [hap] at h3n
+      obtain ⟨v, hv, hvn⟩ := h3n
+      simp only [hv, bind, Except.bind, pure, Except.pure, Value.getattr, hvn]
+    | none =>
+      simp only [hap] at h3n
+      simp only [hnr, h1, bind, Except.bind, pure, Except.pure, Value.getattr, h3n]
+  | @var x h1 h2 =>
+    refine .atom ?_
+    rw [denOv_var_envAfterV hok x]
+    simp only [den, hE.other x h1 h2]
+  | @node e hv hc ih =>
+    exact .node hv (intercept_none_of_shapes hk hv hc) ih
+
+/-- **Substitution lemma, subscript and look-up keys (semantic form).**  Keys `a[k]` (literal index
+`k ≥ 0` into a tuple) and `r.n` (attribute of a record), next to names and `Variable` objects: if
+the aggregates occur in `e` only under such selections (`AggSafe`) then substituting and evaluating
+is evaluating the original in the environment in which every replaced element / attribute / name
+holds the value of its replacement (`AggEnv`).  Outside `AggSafe` this is false:
+`subst_subscript_computed_index_cex`, `subst_subscript_negative_index_cex`,
+`subst_bare_aggregate_cex`. -/
+theorem eval_subst_aggregates {σ : SubstMap} {env env' : Env} {A Rc : List String}
+    (hk : ∀ p ∈ σ.byExpr, KeyShape A Rc p.1) (hok : SubstOKV env σ)
+    (hE : AggEnv σ env env' A Rc) (e : Expr) (hs : AggSafe A Rc e) (h : NoZeroCse σ e) :
+    den env (substM σ e).1 = den env' e := by
+  rw [eval_subst_keys σ env e h]
+  exact denOv_eq_den_of_semOK (semOK_of_aggSafe hk hok hE hs)
+
+
+/-- `AggEnv` is what assigning to an element produces: for the single key `a[k₀] ↦ r` the
+environment `env` with `a` rebound to the tuple with element `k₀` set to the value of `r`. -/
+theorem aggEnv_set_elem {env : Env} {a : String} {k₀ : Nat} {r : Expr} {vs : List Value} {v : Value}
+    (ha : env.get a = some (.tuple vs)) (hr : den env r = .ok v) (hk : k₀ < vs.length) :
+    AggEnv { byExpr := [(.subscript (.var a) (.const (.int k₀)), r)] } env
+      ((a, .tuple (vs.set k₀ v)) :: env) [a] [] := by
+  refine ⟨?_, ?_, ?_, ?_⟩
+  · intro x h1 _
+    have hne : ¬ a = x := by simpa [eq_comm] using h1
+    simp [Env.get, hne, envAfterV, varBindings, envAfterL]
+  · intro b _
+    simp [SubstMap.apply, SubstMap.findExpr, SubstMap.findName, Expr.pyEq]
+  · intro b hb
+    simp only [List.mem_singleton] at hb
+    subst hb
+    refine ⟨vs, vs.set k₀ v, ha, by simp [Env.get], ?_⟩
+    intro k
+    by_cases hkk : k₀ = k
+    · subst hkk
+      simp [SubstMap.apply, SubstMap.findExpr, Expr.pyEq, Const.pyEq, Const.numVal?, hr, hk]
+    · have : ¬ (k₀ : Int) = (k : Int) := by omega
+      simp [SubstMap.apply, SubstMap.findExpr, Expr.pyEq, Const.pyEq, Const.numVal?, this,
+        List.getElem?_set_ne hkk]
+  · intro b hb; simp at hb
+
+/-- non-vacuity of `eval_subst_aggregates`: `{t[1] ↦ x + 1}` on `t[1] * t[0] + t[2] + x` -/
+example :
+    let σ : SubstMap := { byExpr := [(.subscript (.var "t") (.const (.int 1)),
+                                      .nary .sum [.var "x", .const (.int 1)])] }
+    let env : Env := [("x", .int 2), ("t", .tuple [.int 4, .int 5, .int 6])]
+    let env' : Env := ("t", .tuple [.int 4, .int 3, .int 6]) :: env
+    let e := Expr.nary .sum [.nary .prod [.subscript (.var "t") (.const (.int 1)),
+                                          .subscript (.var "t") (.const (.int 0))],
+                             .subscript (.var "t") (.const (.int 2)), .var "x"]
+    den env (substM σ e).1 = den env' e ∧ den env' e = .ok (.int 20) := by
+  intro σ env env' e
+  have hE : AggEnv σ env env' ["t"] [] :=
+    aggEnv_set_elem (a := "t") (k₀ := 1) (vs := [.int 4, .int 5, .int 6]) (v := .int 3) rfl rfl
+      (by decide)
+  refine ⟨eval_subst_aggregates (A := ["t"]) (Rc := []) ?_ ?_ hE e ?_
+    (noZeroCse_of_check (by decide)), by rfl⟩
+  · intro p hp
+    simp only [σ, List.mem_singleton] at hp
+    subst hp; exact .elem "t" 1 (by simp)
+  · intro x r hr
+    simp [σ, SubstMap.apply, SubstMap.findExpr, SubstMap.findName, Expr.pyEq] at hr
+  · simp only [e]
+    refine .node (by simp) ?_
+    intro c hc
+    simp only [Expr.children, List.mem_cons, List.not_mem_nil, or_false] at hc
+    rcases hc with rfl | rfl | rfl
+    · refine .node (by simp) ?_
+      intro c hc
+      simp only [Expr.children, List.mem_cons, List.not_mem_nil, or_false] at hc
+      rcases hc with rfl | rfl
+      · exact .elem 1 (by simp)
+      · exact .elem 0 (by simp)
+    · exact .elem 2 (by simp)
+    · exact .var (by simp) (by simp)
+
+/-! ### what is false for subscript keys: matching is syntactic (witnesses, all with the
+environment `env'` that `aggEnv_set_elem` produces) -/
+
+/-- A COMPUTED index is not matched: `{a[0] ↦ 7}` leaves `a[i]` alone although `i = 0`, so the
+substituted tree reads the old element while the updated environment holds the new one. -/
+theorem subst_subscript_computed_index_cex :
+    let σ : SubstMap := { byExpr := [(.subscript (.var "a") (.const (.int 0)), .const (.int 7))] }
+    let env : Env := [("a", .tuple [.int 1, .int 2]), ("i", .int 0)]
+    let env' : Env := ("a", .tuple [.int 7, .int 2]) :: env
+    let e := Expr.subscript (.var "a") (.var "i")
+    AggEnv σ env env' ["a"] [] ∧ NoZeroCse σ e ∧
+    den env (substM σ e).1 = .ok (.int 1) ∧ den env' e = .ok (.int 7) := by
+  intro σ env env' e
+  exact ⟨aggEnv_set_elem (a := "a") (k₀ := 0) (vs := [.int 1, .int 2]) (v := .int 7) rfl rfl
+    (by decide), noZeroCse_of_check (by decide), by rfl, by rfl⟩
+
+/-- A NEGATIVE literal index aliases an element without being `==` to its key: `{a[1] ↦ 7}`
+leaves `a[-1]` alone. -/
+theorem subst_subscript_negative_index_cex :
+    let σ : SubstMap := { byExpr := [(.subscript (.var "a") (.const (.int 1)), .const (.int 7))] }
+    let env : Env := [("a", .tuple [.int 1, .int 2])]
+    let env' : Env := ("a", .tuple [.int 1, .int 7]) :: env
+    let e := Expr.subscript (.var "a") (.const (.int (-1)))
+    AggEnv σ env env' ["a"] [] ∧ NoZeroCse σ e ∧
+    den env (substM σ e).1 = .ok (.int 2) ∧ den env' e = .ok (.int 7) := by
+  intro σ env env' e
+  exact ⟨aggEnv_set_elem (a := "a") (k₀ := 1) (vs := [.int 1, .int 2]) (v := .int 7) rfl rfl
+    (by decide), noZeroCse_of_check (by decide), by rfl, by rfl⟩
+
+/-- The aggregate itself is not a key: `{a[0] ↦ 7}` leaves a bare `a` (here: `(a,)`) alone. -/
+theorem subst_bare_aggregate_cex :
+    let σ : SubstMap := { byExpr := [(.subscript (.var "a") (.const (.int 0)), .const (.int 7))] }
+    let env : Env := [("a", .tuple [.int 1, .int 2])]
+    let env' : Env := ("a", .tuple [.int 7, .int 2]) :: env
+    let e := Expr.tuple [.var "a"]
+    AggEnv σ env env' ["a"] [] ∧ NoZeroCse σ e ∧
+    den env (substM σ e).1 = .ok (.tuple [.tuple [.int 1, .int 2]]) ∧
+    den env' e = .ok (.tuple [.tuple [.int 7, .int 2]]) := by
+  intro σ env env' e
+  exact ⟨aggEnv_set_elem (a := "a") (k₀ := 0) (vs := [.int 1, .int 2]) (v := .int 7) rfl rfl
+    (by decide), noZeroCse_of_check (by decide), by rfl, by rfl⟩
+
+/-- Conversely `==` matches MORE than the index value: the key `a[1]` also intercepts `a[True]`
+(harmless: same element) — shown here — and `a[1.0]`, which Python itself cannot evaluate
+(`TypeError`) while the substituted tree can (real code only; floats are outside `den`). -/
+example :
+    let σ : SubstMap := { byExpr := [(.subscript (.var "a") (.const (.int 1)), .const (.int 7))] }
+    substM σ (.subscript (.var "a") (.const (.bool true))) = (.const (.int 7), true) ∧
+    substM σ (.subscript (.var "a") (.const (.flt "1.0" 1 1))) = (.const (.int 7), true) := by
+  constructor <;> rfl
+
+
+/-! ## The memoizing mapper (`CachedSubstitutionMapper`), for every history of calls on one mapper
+
+`csubst` threads the memo table of `CachedMapper.__call__` (key `(type(expr), expr)`, i.e.
+`Expr.keyEq`) through the traversal and through successive calls.  A hit returns whatever was
+stored for an `==`-equal key, so the result can be another SPELLING of the plain mapper's result
+(`1` for `True`, `2.0` for `2`, keywords in another order) — `cached_identical_cex`.  What holds:
+the results are `==` (`cached_hist_pyEq`), and they are the very same trees when no two trees in
+play are equal as keys without being identical (`cached_hist_identical`). -/
+
+/-- **Memoizing ≡ plain up to `==`, for every history.**  On one `CachedSubstitutionMapper`, for
+any sequence of calls on well-formed trees (no nan, keyword names distinct) with a well-formed
+substitution map, call `i` raises `TypeError` exactly when its argument contains a Python list and
+otherwise returns a well-formed tree that is `==` to what the plain `SubstitutionMapper` returns
+for that argument. -/
+theorem cached_hist_pyEq {σ : SubstMap} (hσ : σ.WF) (es : List Expr)
+    (hes : ∀ e ∈ es, e.wf = true) :
+    histRel (fun e v => v.wf = true ∧ v.pyEq (substM σ e).1 = true) es (csubstHist σ es []) := by
+  have hP : (fun (e v : Expr) => v.wf = true ∧ v.pyEq (substM σ e).1 = true) =
+      (fun e v => v.wf = true ∧ v.pyEq (substE σ e) = true) := by
+    funext e v; rw [(substM_spec σ e).1]
+  rw [hP]
+  exact csubstHist_rel (cacheRel_pyEq hσ) es [] (cinv_nil _ _) hes
+
+/-- **Memoizing = plain, tree for tree, without confusable keys.**  If the trees passed to the
+mapper and all their subtrees (`U`, closed under children) contain no two different trees that are
+equal as memo-table keys, every call returns exactly the plain mapper's tree. -/
+theorem cached_hist_identical (σ : SubstMap) {U : Expr → Prop} (hU : NoConfuse U)
+    (es : List Expr) (hes : ∀ e ∈ es, U e) :
+    histRel (fun e v => v = (substM σ e).1) es (csubstHist σ es []) := by
+  have hP : (fun (e v : Expr) => v = (substM σ e).1) = (fun e v => v = substE σ e) := by
+    funext e v; rw [(substM_spec σ e).1]
+  rw [hP]
+  exact csubstHist_rel (cacheRel_eq σ hU) es [] (cinv_nil _ _) hes
+
+/-- call by call -/
+theorem cached_call_pyEq {σ : SubstMap} (hσ : σ.WF) (es : List Expr)
+    (hes : ∀ e ∈ es, e.wf = true) (i : Nat) (h1 : i < es.length)
+    (h2 : i < (csubstHist σ es []).length) :
+    HistOK (fun e v => v.wf = true ∧ v.pyEq (substM σ e).1 = true) es[i] (csubstHist σ es [])[i] :=
+  (histRel_get (cached_hist_pyEq hσ es hes)).2 i h1 h2
+
+theorem cached_hist_length (σ : SubstMap) (es : List Expr) :
+    (csubstHist σ es []).length = es.length := by
+  have : ∀ (es : List Expr) (m : C08Cache), (csubstHist σ es m).length = es.length := by
+    intro es; induction es with
+    | nil => intro m; rfl
+    | cons e es ih => intro m; simp [csubstHist, ih]
+  exact this es []
+
+/-- the entry point: `substitute(e, σ, **kw)` with the default (memoizing) mapper class returns a
+tree `==` to the one the plain mapper class returns -/
+theorem cached_substitute_pyEq (σ : SubstMap) (kw : List (String × Expr)) (e : Expr)
+    (hσ : (σ.c08WithKw kw).WF) (he : e.wf = true) (hl : e.hasList = false) :
+    ∃ v v0 fl, c08Substitute σ kw true e = some (v, none) ∧
+      c08Substitute σ kw false e = some (v0, some fl) ∧ v.pyEq v0 = true := by
+  have h := cached_hist_pyEq hσ [e] (by simpa using he)
+  simp only [csubstHist, csubstTop, hl, Bool.false_eq_true, if_false, histRel, HistOK,
+    and_true, true_and] at h
+  refine ⟨(csubst (σ.c08WithKw kw) e []).1, (substM (σ.c08WithKw kw) e).1,
+    (substM (σ.c08WithKw kw) e).2, ?_, ?_, h.2⟩
+  · simp only [c08Substitute, if_true, csubstTop, hl, Bool.false_eq_true, if_false]
+  · simp only [c08Substitute, Bool.false_eq_true, if_false]
+
+instance : LawfulBEq Expr where
+  eq_of_beq := fun h => (PV.Syntax.beq_iff _ _).mp h
+  rfl := (PV.Syntax.beq_iff _ _).mpr rfl
+
+/-- a finite universe given as a list: both conditions are decidable -/
+theorem noConfuse_of_list (L : List Expr) (h1 : ∀ e ∈ L, ∀ c ∈ e.children, c ∈ L)
+    (h2 : ∀ a ∈ L, ∀ b ∈ L, a.keyEq b = true → a = b) : NoConfuse (· ∈ L) :=
+  ⟨h1, fun a b ha hb => h2 a ha b hb⟩
+
+/-- non-vacuity: a history of three calls (the third asks again for a subtree of the first) -/
+example :
+    let σ : SubstMap := { byName := [("x", .var "y")],
+                          byExpr := [(.subscript (.var "a") (.const (.int 1)), .const (.int 7))] }
+    let e1 := Expr.nary .sum [.var "x", .subscript (.var "a") (.const (.int 1))]
+    let e2 := Expr.bin .pow (.var "x") (.const (.int 2))
+    let es := [e1, e2, .var "x"]
+    csubstHist σ es [] = [some (.nary .sum [.var "y", .const (.int 7)]),
+                          some (.bin .pow (.var "y") (.const (.int 2))), some (.var "y")] ∧
+    histRel (fun e v => v = (substM σ e).1) es (csubstHist σ es []) ∧
+    histRel (fun e v => v.wf = true ∧ v.pyEq (substM σ e).1 = true) es (csubstHist σ es []) := by
+  intro σ e1 e2 es
+  refine ⟨by rfl, ?_, ?_⟩
+  · exact cached_hist_identical σ
+      (noConfuse_of_list [e1, e2, .var "x", .subscript (.var "a") (.const (.int 1)), .var "a",
+        .const (.int 1), .const (.int 2)] (by decide) (by decide)) es (by decide)
+  · exact cached_hist_pyEq ⟨by decide, by decide, by decide⟩ es (by decide)
+
+/-- **Why "identical" needs `NoConfuse`** (the known finding, at tree level).  With the EMPTY
+substitution: after `~4.0` the mapper answers `~4` with `~4.0`; and inside ONE tree `f(CSE(1),
+CSE(True))` comes back as `f(CSE(1), CSE(1))`.  Both results are `==` to the plain mapper's, neither
+is the same tree — and the first one no longer means the same (`~4` is `-5`, `~4.0` is a
+`TypeError` in Python; `den` abstains on floats). -/
+theorem cached_identical_cex :
+    csubstHist {} [.un .bnot (.const (.flt "4.0" 4 1)), .un .bnot (.const (.int 4))] [] =
+      [some (.un .bnot (.const (.flt "4.0" 4 1))), some (.un .bnot (.const (.flt "4.0" 4 1)))] ∧
+    (substM {} (.un .bnot (.const (.int 4)))).1 = .un .bnot (.const (.int 4)) ∧
+    den [] (.un .bnot (.const (.int 4))) = .ok (.int (-5)) ∧
+    c08Substitute {} [] true (.call (.var "f") [.cse (.const (.int 1)) none "s",
+        .cse (.const (.bool true)) none "s"]) =
+      some (.call (.var "f") [.cse (.const (.int 1)) none "s", .cse (.const (.int 1)) none "s"],
+        none) := by
+  refine ⟨by rfl, by rfl, by rfl, by rfl⟩
 
 end PV.C08
